@@ -290,7 +290,9 @@ class BaseProject(object, metaclass=ABCMeta):
 
         self.simulation_mode = SimulationMode.FORWARD
 
-        self.absence_time_list = absence_time_list
+        # keep a copy: the caller's list (or the shared default []) must not be
+        # changed when the log editors later extend self.absence_time_list
+        self.absence_time_list = list(absence_time_list)
 
         self.perform_auto_task_while_absence_time = perform_auto_task_while_absence_time
 
